@@ -3,7 +3,7 @@
 From Coq Require Import ZArith List Bool Ascii String Lia.
 From Hermes Require Import Num DateModel CropParamModel CropParamProofs OverrideModel.
 Import ListNotations.
-Open Scope Z_scope.
+Local Open Scope Z_scope.
 
 Section Commute.
   Context {T : Type} {NT : Num T}.
